@@ -23,7 +23,9 @@ import (
 
 	"github.com/flant/shell-operator/pkg/executor"
 	"github.com/flant/shell-operator/pkg/hook/task_metadata"
+	objectpatch "github.com/flant/shell-operator/pkg/kube/object_patch"
 	metricstorage "github.com/flant/shell-operator/pkg/metric_storage"
+	schedulemanager "github.com/flant/shell-operator/pkg/schedule_manager"
 	"github.com/flant/shell-operator/pkg/task"
 	"github.com/flant/shell-operator/pkg/task/queue"
 	"github.com/flant/shell-operator/pkg/zzverif/vfx"
@@ -93,6 +95,11 @@ type fixture struct {
 }
 
 var fxCurrent *fixture
+
+func init() {
+	os.Setenv("QUEUE_ACTIONS_METRICS", "no")
+	log.SetDefault(log.NewNop())
+}
 
 func fxThreadKey() int64 {
 	if x := vrt.Active(); x != nil {
@@ -308,6 +315,35 @@ func (fx *fixture) taskEnd(qname string, t task.Task, r queue.TaskResult) {
 		ev.VT = x.Now()
 	}
 	fx.Events = append(fx.Events, ev)
+}
+
+// ---- scheduler mode ----
+
+// operator.go is compiled with these call sites routed here (see tools/registry.py): the HTTP
+// server, the metrics loops and cron's own goroutine are outside every property and would
+// only add free-running goroutines.
+func zzNoopAPIStart(_ *baseHTTPServer, _ context.Context)      {}
+func zzNoopRunMetrics(_ *ShellOperator)                         {}
+func zzNoopSchedStart(_ schedulemanager.ScheduleManager)        {}
+
+// withCluster gives the operator a fresh fake cluster and an object patcher on it.
+func (fx *fixture) withCluster() {
+	fx.op.KubeClient = vfx.NewMiniCluster()
+	fx.op.ObjectPatcher = objectpatch.NewObjectPatcher(fx.op.KubeClient, log.NewNop())
+}
+
+// start runs the operator's own Start().
+func (fx *fixture) start() { fx.op.Start() }
+
+// runsOf returns the recorded runs of one hook.
+func (fx *fixture) runsOf(hook string) []*fxRun {
+	var out []*fxRun
+	for _, r := range fx.Runs {
+		if r.Hook == hook {
+			out = append(out, r)
+		}
+	}
+	return out
 }
 
 // queueDump lists "<type>:<hook>:<binding>" of every task of a queue.
